@@ -21,6 +21,11 @@ inductive Handle where
   | post
   | dropped
 
+/-- work queued for after the transaction (the library's `post` queue) -/
+inductive Item where
+  | ev (i : Nat) (v : Int)            -- a transaction of its own carrying this event: a deferred event, or a send posted by user code
+  | samp (name : String) (c : Nat)    -- a posted closure that samples a cell
+
 structure Lis where
   name : String
   target : Nat
@@ -36,7 +41,7 @@ structure St where
   lis : Array Lis := #[]
   depth : Nat := 0
   sends : Events := []
-  posts : List (String × Nat) := []
+  posts : List Item := []              -- closures queued with `SodiumCtx::post` in the open transaction, in order
   txOpen : List (String × Bool) := []     -- scoped transactions: name ↦ still open
   dead : Bool := false
 
@@ -94,6 +99,17 @@ def runDeferred : Nat → St → List (Nat × Int) → List (String × Int) → 
     -- nested `end_of_transaction` drains the `post` queue itself (depth-first, as in M_txn's `trace`)
     runDeferred fuel st (more ++ rest) (acc ++ cbs)
 
+/-- the `post` queue after the outermost transaction: items run in order; the events a spawned transaction defers run
+    before the rest of the queue (its own `end_of_transaction` drains them) -/
+def runItems : Nat → St → List Item → List (String × Int) → St × List (String × Int) × Bool
+  | 0, st, _, acc => (st, acc, true)
+  | _ + 1, st, [], acc => (st, acc, false)
+  | fuel + 1, st, .samp p c :: rest, acc =>
+    runItems fuel st rest (acc ++ ((st.sp.val c).map fun v => (p, v)).toList)
+  | fuel + 1, st, .ev i v :: rest, acc =>
+    let (st, cbs, more) := runOne st [(i, v)] []
+    runItems fuel st (more.map (fun e => Item.ev e.1 e.2) ++ rest) (acc ++ cbs)
+
 /-- a Lazy taken from a cell that could not be read yet (an open CellLoop) denotes the cell's value
     at the start of the transaction it was taken in: fixed when that transaction closes -/
 def resolveLazies (st : St) : St :=
@@ -104,9 +120,10 @@ def resolveLazies (st : St) : St :=
 /-- the outermost transaction closes -/
 def closeTxn (st : St) : St × String :=
   let st := resolveLazies st
-  let (st1, cbs, dfr) := runOne st st.sends st.posts
+  let (st1, cbs, dfr) := runOne st st.sends []
   let st1 := { st1 with sends := [], posts := [] }
-  let (st2, cbs2, diverged) := runDeferred 200 st1 dfr cbs
+  -- user posts were queued while the transaction body ran, the deferring primitives queue theirs during propagation
+  let (st2, cbs2, diverged) := runItems 400 st1 (st.posts ++ dfr.map fun e => Item.ev e.1 e.2) cbs
   -- the collection at the very end of the outermost transaction frees weak listeners whose handle is gone
   let st2 := { st2 with lis := st2.lis.map fun l => if l.dying then { l with active := false } else l }
   (st2, if diverged then "DIVERGE" else "ok" ++ showCbs cbs2)
@@ -180,6 +197,45 @@ def lazyFoldStmt (st : St) (x s z op : String) (isAccum : Bool) : St × String :
      | none => ({ st with dead := true }, "PANIC sample-before-loop"))
   | _, _, _ => (st, "skip")
 
+/-- `switch_s(s.map(k ↦ base.map(f2 op · k)).hold(never))` — the canonical dynamic use of switch: every event `k` of
+    `s` builds a fresh stream on `base`, effective from the next transaction on; before the first event of `s` nothing is
+    emitted.  In S: the events of `base` combined with the last `k` (a snapshot of a hold of `s`), let through once `s` has
+    fired at least once (a gate on a flag cell that starts odd and is set to 2 by the first event). -/
+def switchLateStmt (st : St) (x s base op : String) : St × String :=
+  if !st.fresh x then (st, "skip") else
+  match st.stream s, st.stream base, num op with
+  | some s, some b, some op =>
+    st.inTxn fun st =>
+      let i := st.sp.defs.size
+      let st := st.addDef (x ++ "#k") (.hold s 0) .c
+      let st := st.addDef (x ++ "#m") (.mapto s 2) .s
+      let st := st.addDef (x ++ "#f") (.hold (i + 1) 1) .c
+      let st := st.addDef (x ++ "#s") (.snapshot b i op) .s
+      st.addDef x (.gate (i + 3) (i + 2)) .s
+  | _, _, _ => (st, "skip")
+
+/-- `switch_c(s.map(k ↦ base.map(f2 op · k).hold(k)).hold(constant 0))` — cells built on demand: every event `k` of `s`
+    builds a fresh cell on `base` inside the transaction and the result switches to it at once, "including an update the
+    new cell receives in that same transaction" (C05).  In S the result is a hold (initially 0) of these events: when `s`
+    fires `k`: `f2 op v k` if `base` fires `v` in the same transaction, else `k`; when only `base` fires `v` and some `k`
+    came before: `f2 op v (last k)`. -/
+def switchLateCStmt (st : St) (x s base op : String) : St × String :=
+  if !st.fresh x then (st, "skip") else
+  match st.stream s, st.stream base, num op with
+  | some s, some b, some op =>
+    st.inTxn fun st =>
+      let i := st.sp.defs.size
+      let st := st.addDef (x ++ "#k") (.hold s 0) .c               -- i     last k
+      let st := st.addDef (x ++ "#m") (.mapto s 2) .s              -- i+1
+      let st := st.addDef (x ++ "#f") (.hold (i + 1) 1) .c         -- i+2   even once `s` has fired
+      let st := st.addDef (x ++ "#s") (.snapshot b i op) .s        -- i+3   base with the last k
+      let st := st.addDef (x ++ "#g") (.gate (i + 3) (i + 2)) .s   -- i+4   … once there is one
+      let st := st.addDef (x ++ "#b") (.merge b s op) .s           -- i+5   both: f2 op v k; only s: k; (only base: v)
+      let st := st.addDef (x ++ "#w") (.when (i + 5) s) .s         -- i+6   … in the transactions in which s fires
+      let st := st.addDef (x ++ "#e") (.orelse (i + 6) (i + 4)) .s -- i+7
+      st.addDef x (.hold (i + 7) 0) .c
+  | _, _, _ => (st, "skip")
+
 /-- one statement (not `begin`/`end`) -/
 def stmt (st : St) (ws : List String) : St × String :=
   match ws with
@@ -239,6 +295,22 @@ def stmt (st : St) (ws : List String) : St × String :=
     -- switch_s over candidates built afresh at every update of the selector, candidate for `k` = `s.map (f2 op · k)`:
     -- it emits `f2 op v (value of sel at the start of the transaction)`, which is exactly `snapshot s sel op`
     defStmt st x (do pure (.snapshot (← st.stream s) (← st.cell sel) (← num op))) .s
+  | ["snaplazy", x, s, c] =>
+    -- `s.map(|_| c.sample_lazy()).map(|l| l.run())`: the Lazy denotes the value of `c` in this transaction
+    defStmt st x (do pure (.snapshot1 (← st.stream s) (← st.cell c))) .s
+  | ["postsend", p, s, v] =>
+    -- `ctx.post(move || sink.send(v))`: a transaction of its own after the current one (at once when none is open)
+    if !st.fresh p then (st, "skip") else
+    (match num v, st.find s with
+     | some v, some (.ent i k) =>
+       if k == .ss || k == .cs then
+         let st := st.bind p .post
+         if st.depth > 0 then ({ st with posts := st.posts ++ [.ev i v] }, "ok")
+         else closeTxn { st with posts := st.posts ++ [.ev i v] }
+       else (st, "skip")
+     | _, _ => (st, "skip"))
+  | ["switchlate", x, s, base, op] => switchLateStmt st x s base op
+  | ["switchlatec", x, s, base, op] => switchLateCStmt st x s base op
   | "switchc" :: x :: sel :: cands =>
     defStmt st x (do
       let sel ← st.cell sel
@@ -301,7 +373,7 @@ def stmt (st : St) (ws : List String) : St × String :=
       match st.cell x with
       | some c =>
         let st := st.bind l .post
-        if st.depth > 0 then ({ st with posts := st.posts ++ [(l, c)] }, "ok")
+        if st.depth > 0 then ({ st with posts := st.posts ++ [.samp l c] }, "ok")
         else (match st.sp.val c with
               | some v => (st, "ok" ++ showCbs [(l, v)])
               | none => ({ st with dead := true }, "PANIC sample-before-loop"))
